@@ -6,5 +6,5 @@ Extraction Language OCaml.
 Extraction "c08model.ml" Z.add Z.mul Z.sub Z.div Z.modulo Z.eqb Z.ltb Z.leb Z.of_nat Z.to_nat Z.opp
   to_list value_eqb valid_b clen type_of has_union body
   promote numpy_promote mergeable mergemany merge_as_union simplify_option simplify_union concat_model astype_model
-  concat_spec simplify_union_spec simplify_option_spec astype_spec
+  concat_spec concat_spec_v simplify_union_spec simplify_option_spec astype_spec
   concat_ty ty_eqb erase_sz astype_ty ty_mergeable is_union is_ixopt.
